@@ -473,12 +473,31 @@ func (c *Cron) schedule(ctx *core.Context, job *CronJob, checkLimit bool) error 
 	return err
 }
 
+// nextOccurrence is expr.Next(after), as an error when the expression
+// makes the library panic.  It does that for a range that runs
+// backwards ("5-2 * * * *"), and we are called with the cron's lock
+// held: the panic left the lock taken, and every later Add or Rem (of
+// any location's scheduled rule) hung.
+func nextOccurrence(expr *cronexpr.Expression, after time.Time) (next time.Time, err error) {
+	defer func() {
+		if r := recover(); r != nil {
+			err = fmt.Errorf("can't compute the next occurrence of the schedule: %v", r)
+		}
+	}()
+	return expr.Next(after), nil
+}
+
 // scheduleLocked does the work for schedule.  Assumes we have the lock.
 func (c *Cron) scheduleLocked(ctx *core.Context, job *CronJob, checkLimit bool) error {
 	core.Log(core.INFO|CRON, ctx, "Cron.schedule", "job", *job, "name", c.Name)
 
 	if job.Expression != nil {
-		job.Next = job.Expression.Next(time.Now().UTC())
+		next, err := nextOccurrence(job.Expression, time.Now().UTC())
+		if err != nil {
+			core.Log(core.WARN|CRON, ctx, "Cron.schedule", "id", job.Id, "schedule", job.Schedule, "error", err)
+			return err
+		}
+		job.Next = next
 		if job.Next.IsZero() {
 			// The expression has no (further) occurrence,
 			// say "0 0 30 2 *".  The zero time would be due
